@@ -83,22 +83,37 @@ func discharge(o *Obligation, dir string, secs int, wantModel bool) {
 	if o.Expect == "sat" && secs > 3 {
 		secs = 3
 	}
-	ctx, cancel := context.WithCancel(context.Background())
-	defer cancel()
-	ch := make(chan solveOut, len(solvers))
-	for _, sp := range solvers {
-		go func(sp solverSpec) { ch <- runSolver(ctx, sp, file, secs) }(sp)
-	}
-	var outs []solveOut
+	// stage 1: z3 5.1 alone for a few seconds (decides the large majority and keeps the machine free);
+	// stage 2: all three solvers raced for the full budget.
 	decided := false
-	for range solvers {
-		r := <-ch
-		outs = append(outs, r)
+	var outs []solveOut
+	if os.Getenv("GOVC_NO_STAGE1") == "" {
+		s1 := 4
+		if secs < s1 {
+			s1 = secs
+		}
+		r := runSolver(context.Background(), solvers[0], file, s1)
 		if r.res == "unsat" || r.res == "sat" {
 			o.Result, o.Solver, o.Secs = r.res, r.solver, r.secs
 			decided = true
-			cancel()
-			break
+		}
+	}
+	if !decided {
+		ctx, cancel := context.WithCancel(context.Background())
+		defer cancel()
+		ch := make(chan solveOut, len(solvers))
+		for _, sp := range solvers {
+			go func(sp solverSpec) { ch <- runSolver(ctx, sp, file, secs) }(sp)
+		}
+		for range solvers {
+			r := <-ch
+			outs = append(outs, r)
+			if r.res == "unsat" || r.res == "sat" {
+				o.Result, o.Solver, o.Secs = r.res, r.solver, r.secs
+				decided = true
+				cancel()
+				break
+			}
 		}
 	}
 	if !decided {
